@@ -5201,8 +5201,8 @@ Ops!(
     b"rbvb"       , [0x8A              ], X;
     b"r*sw"       , [0x8C              ], X, AUTO_SIZE;
     b"mwsw"       , [0x8C              ], X;
-    b"swmw"       , [0x8C              ], X;
-    b"swrw"       , [0x8C              ], X;
+    b"swmw"       , [0x8E              ], X;
+    b"swrw"       , [0x8E              ], X;
     b"rbib"       , [0xB0              ], X,             SHORT_ARG;
     b"rwiw"       , [0xB8              ], X, WORD_SIZE | SHORT_ARG;
     b"rdid"       , [0xB8              ], X,             SHORT_ARG;
